@@ -87,12 +87,13 @@ Qed.
 
 (* ---------------------------------------------------------------------------------------------- *)
 (* ndsplineeval_deriv: arbitrary derivative orders. Orders 0 and 1 use the routines above; orders >= 2 use the recursive
-   right-continuous bspline_deriv, which equals the derivative formula when the knots of that dimension are strictly
-   increasing and the point lies below the upper end of full support (where plain evaluation is right-continuous too). *)
+   bspline_deriv (right-continuous, below the upper end of full support) or bspline_deriv_left (left-continuous, from there
+   upwards — repair of D3), which equal the derivative formula with the side of plain evaluation when the knots of that
+   dimension are strictly increasing (the recursion divides by knot differences). *)
 Definition strict_dim (d : @dimn A) : Prop :=
   forall i j, 0 <= i -> i < j -> j < d_nknots d -> lt (d_kn d i) (d_kn d j).
 Definition derivk_ok (d : @dimn A) (x : K) (k : nat) : Prop :=
-  (k <= 1)%nat \/ (strict_dim d /\ lt x (d_kn d (d_naxes d))).
+  (k <= 1)%nat \/ strict_dim d.
 
 Lemma dim_rel_derk (d : @dimn A) (x : K) (c : Z) (k : nat) :
   wf_dim anyord d -> in_range d x -> center_post d x c -> eval_regular d x -> derivk_ok d x k ->
@@ -100,14 +101,16 @@ Lemma dim_rel_derk (d : @dimn A) (x : K) (c : Z) (k : nat) :
 Proof.
   intros Hw Hr Hp Hreg Hok.
   destruct k as [|[|k]]; [apply (dim_rel_val F); assumption | apply dim_rel_der; assumption |].
-  destruct Hok as [Hk|[Hstrict Hlt]]; [lia|].
+  destruct Hok as [Hk|Hstrict]; [lia|].
   destruct (lookup_walk_post F d x c Hw Hr Hp Hreg) as [Hmono [W1 [W2 [Hc W]]]].
-  assert (Es : side_of d x = true) by exact Hlt.
-  unfold dim_rel. cbv zeta. rewrite Es in *. split; [exact Hc|]. split.
-  - cbn [localbasis_derivk]. apply map_ext_in. intros i Hi. apply in_seq in Hi. rewrite (rnd_id F).
-    apply (bspline_deriv_dB F _ _ Hstrict x); lia.
+  unfold dim_rel. cbv zeta. split; [exact Hc|]. split.
+  - cbn [localbasis_derivk]. unfold side_of. destruct (ltb x (d_kn d (d_naxes d))).
+    + apply map_ext_in. intros i Hi. apply in_seq in Hi. rewrite (rnd_id F).
+      apply (bspline_deriv_dB F _ _ Hstrict x); lia.
+    + apply map_ext_in. intros i Hi. apply in_seq in Hi. rewrite (rnd_id F).
+      apply (bspline_deriv_left_dB F _ _ Hstrict x); lia.
   - intros i Hi Hout. destruct W as [Hl0 [Hl1 [Hpc [Hcc Hrel]]]].
-    apply (dBk_support F _ _ Hmono true _ x Hl0 Hl1 Hpc); lia.
+    apply (dBk_support F _ _ Hmono _ _ x Hl0 Hl1 Hpc); lia.
 Qed.
 
 Lemma localbases_derivk_rel : forall (ds : list (@dimn A)) xs cs ks,
